@@ -29,6 +29,13 @@ func ValueOf(query *Query, current Map, any any) (any, error) {
 				// }
 				return nil, err
 			}
+			// a grouped row keeps a qualified or nested grouping column under
+			// its whole name: what the path does not find, the name may
+			if rs == nil {
+				if flat, ok := current[string(value)]; ok {
+					return flat, nil
+				}
+			}
 			// the name of a CTE that has not been read yet: its value is
 			// its rows, never the thunk that produces them
 			if cte, ok := rs.(CteEvaluation); ok {
